@@ -324,6 +324,34 @@ func kindsFor(t transport) []string {
 	return []string{"bytes", "json", "form", "xml", "plain", "pb", "thrift"}
 }
 
+// keptCmd is a completed call whose command object the caller still holds.
+type keptCmd struct {
+	c                      erpc.CallCmd
+	got                    protos.Triple
+	id, tname, mode, kind string
+	desc                   map[string]interface{}
+}
+
+var kept []keptCmd
+
+// recheckKept reads the status of every kept command again: it is what was observed at completion.
+func recheckKept() {
+	for _, k := range kept {
+		core.Add("statuses_reinspected_later", 1)
+		now := protos.StatusTriple(k.c.Status())
+		_, st2 := k.c.Reply()
+		now2 := protos.StatusTriple(st2)
+		if now != k.got || now2 != k.got {
+			id := k.id + ".later"
+			core.Begin(id, k.desc)
+			core.Result(core.R{ID: id, Verdict: core.Violated, FP: fmt.Sprintf("C04/%s/%s/%s/status-changed-after-completion", k.tname, k.mode, k.kind),
+				What:    fmt.Sprintf("%s %s %s: the completed call reported %+q; after further messages were read the same command reports %+q", k.tname, k.mode, k.kind, k.got, now),
+				Witness: map[string]interface{}{"at_completion": fmt.Sprintf("%+q", k.got), "later_Status": fmt.Sprintf("%+q", now), "later_Reply": fmt.Sprintf("%+q", now2)}, Desc: k.desc})
+		}
+	}
+	kept = kept[:0]
+}
+
 func main() {
 	flag.Parse()
 	core.Prop = *prop
@@ -573,8 +601,15 @@ func main() {
 				if held {
 					core.Result(core.R{ID: id, Verdict: core.Held})
 				}
+				// the completed command is kept, as a caller keeps a batch of AsyncCall results or logs a status later:
+				// what it reports must not change while further messages are read by the process
+				kept = append(kept, keptCmd{c, got, id, t.name, mode, kind, desc})
+				if len(kept) >= 48 {
+					recheckKept()
+				}
 			}
 		}
+		recheckKept()
 		cli.Close()
 		srv.Close()
 	}
